@@ -300,7 +300,7 @@ class Tally:
                 reason = f"{len(d['unknown'])} shapes undecided: {d['unknown'][0]['detail']}"
             out.append({"id": f"{self.prefix}/bounded#{k}", "kind": "bounded", "bounded": True, "status": status, "vcs": d["n"],
                         "seconds": round(d["seconds"], 3), "backends": {"z3-bounded": d["n"]}, "witness": fail[0] if fail else None,
-                        "failing": [{"shape": x["shape"], "features": x["features"]} for x in fail[:400]],
+                        "failing": [{"shape": x["shape"], "features": x["features"]} for x in fail[:2000]],
                         "reason": reason, "loc": loc})
         return out
 
